@@ -25,10 +25,19 @@ import (
 	"time"
 )
 
-const (
-	verifDir = "/verif"
-	repoDir  = "/repo"
+// verifDir / repoDir: /verif and /repo; overridable (VERIF_DIR, VERIF_REPO) so that a background run can work
+// on snapshots of both (the registered commands never set them).
+var (
+	verifDir = envOr("VERIF_DIR", "/verif")
+	repoDir  = envOr("VERIF_REPO", "/repo")
 )
+
+func envOr(k, d string) string {
+	if v := os.Getenv(k); v != "" {
+		return v
+	}
+	return d
+}
 
 type famDesc struct {
 	Name, Level, Rule          string
@@ -181,7 +190,19 @@ func build(dir string) string {
 		}
 	}
 	bin := filepath.Join(dir, "sim.test")
-	cmd := exec.Command("go1.26.8", "test", "-c", "-tags", "verif", "-overlay", ov, "-vet=off", "-o", bin, "./scen")
+	args := []string{"test", "-c", "-tags", "verif", "-overlay", ov, "-vet=off", "-o", bin}
+	if repoDir != "/repo" {
+		// snapshot of the repository: same go.mod with the replace directive pointing at it
+		gm, _ := os.ReadFile(filepath.Join(verifDir, "harness", "go.mod"))
+		mf := filepath.Join(dir, "go.mod")
+		os.WriteFile(mf, bytes.ReplaceAll(gm, []byte("=> /repo"), []byte("=> "+repoDir)), 0o644)
+		if gs, err := os.ReadFile(filepath.Join(verifDir, "harness", "go.sum")); err == nil {
+			os.WriteFile(filepath.Join(dir, "go.sum"), gs, 0o644)
+		}
+		args = append(args, "-modfile="+mf)
+	}
+	args = append(args, "./scen")
+	cmd := exec.Command("go1.26.8", args...)
 	cmd.Dir = filepath.Join(verifDir, "harness")
 	cmd.Env = goEnv()
 	var out bytes.Buffer
